@@ -760,7 +760,10 @@ Propagate ==
                  ELSE /\ nd' = [nd EXCEPT ![p].st = "idle", ![n].st = "idle"]
                       /\ exc' = [exc EXCEPT !.at = p]
             /\ UNCHANGED <<pid, heap, log, calls, fin>>
-       [] K(p) \in {"while", "for"} /\ exc.kind \in {"brk", "cnt"} /\ nd[p].md # "else" ->
+       \* (the iterable of a `for` is evaluated before the loop is entered: a break / continue there belongs to
+       \* the enclosing loop; the condition of a `while` is evaluated inside the loop)
+       [] K(p) \in {"while", "for"} /\ exc.kind \in {"brk", "cnt"} /\ nd[p].md # "else"
+          /\ ~(K(p) = "for" /\ n = Ch(p)[2]) ->
             /\ exc' = NoExc
             /\ IF exc.kind = "brk"
                  THEN nd' = [kd EXCEPT ![p].st = "done", ![p].val = None]
